@@ -26,7 +26,8 @@ func runSanitise(f []string, out *bufio.Writer) {
 
 // case: status <client hex|nil> <server hex|nil> <raw,raw,...|-> <info|debug>
 // obs:  skeleton=<hex of the page with nothing recorded> page=<hex of the page>
-//       displays=<hex,hex,..: Message.String() of every queued message>
+//
+//	displays=<hex,hex,..: Message.String() of every queued message>
 func runStatus(f []string, out *bufio.Writer) {
 	func() {
 		defer func() {
